@@ -410,62 +410,137 @@ package service
 
 //@ func isDNS
 //@   props C14 C18
+//@   pure
 //@   requires addr != nil
 
+// onWrite: the association's deadline never moves earlier, is at least now + 17 s after a DNS
+// datagram and now + the configured timeout after any other, and the tracked value changes only
+// together with the socket's deadline. A non-DNS or second write disables fast close for good.
 //@ func (*natconn).onWrite
 //@   props C14 C18
+//@   arith-trusted deadlines are far from the int64 range of nanoseconds
 //@   requires validNatconn(c) && addr != nil
+//@   ensures[C14,deadline-monotone] c.readDeadline >= old(c.readDeadline)
+//@   ensures[C14,dns-deadline] isDNS(addr) ==> c.readDeadline >= clock() + 17000000000
+//@   ensures[C14,default-deadline] !isDNS(addr) ==> c.readDeadline >= clock() + c.defaultTimeout
+//@   ensures[C14,fast-close-disabled] !isDNS(addr) || old(c.readDeadline) != 0 ==> oncedone(&c.fastClose)
+//@   ensures[C14,fast-close-kept-for-first-dns] isDNS(addr) && old(c.readDeadline) == 0 ==> oncedone(&c.fastClose) == old(oncedone(&c.fastClose))
+//@   trace[C14,socket-deadline-is-tracked-value] each net.PacketConn.SetReadDeadline satisfies $arg0 == c.readDeadline && $recv == c.PacketConn
+//@   trace[C14,socket-deadline-set-when-tracked-value-changes] exactly 1 net.PacketConn.SetReadDeadline when c.readDeadline != old(c.readDeadline)
+//@   trace[C14,no-spurious-deadline-change] never net.PacketConn.SetReadDeadline when c.readDeadline == old(c.readDeadline)
+
+// onRead: the one place the deadline moves earlier: at most once, only if exactly one datagram
+// was written, it went to port 53, and the reply comes from port 53.
 //@ func (*natconn).onRead
 //@   props C14 C18
 //@   requires validNatconn(c) && addr != nil
+//@   ensures[C14,fast-close-fires-once] oncedone(&c.fastClose)
+//@   ensures c.readDeadline == old(c.readDeadline)
+//@   trace[C14,fast-close-only-once] never net.PacketConn.SetReadDeadline when old(oncedone(&c.fastClose))
+//@   trace[C14,fast-close-only-for-dns-reply] never net.PacketConn.SetReadDeadline when !isDNS(addr)
+//@   trace[C14,at-most-one-expiry] atmost 1 net.PacketConn.SetReadDeadline
+//@   trace[C14,expires-now] each net.PacketConn.SetReadDeadline satisfies $arg0 == evres("clock", 0)
+
 //@ func (*natconn).WriteTo
 //@   props C14 C18
 //@   requires validNatconn(c) && dst != nil
 //@   ensures 0 <= result.0 && result.0 <= len(buf)
+//@   trace[C14,deadline-extended-on-every-write] exactly 1 service.(*natconn).onWrite
+//@   trace[C14,deadline-extended-before-sending] before service.(*natconn).onWrite net.PacketConn.WriteTo
+//@   trace[C14,deadline-for-this-destination] each service.(*natconn).onWrite satisfies $arg1 == dst
+//@   trace[C03,sends-what-it-was-given] each net.PacketConn.WriteTo satisfies sameslice($arg0, buf) && $arg1 == dst && result.0 == $res0 && result.1 == $res1
 //@ func (*natconn).ReadFrom
 //@   props C14 C18
 //@   requires validNatconn(c)
 //@   ensures 0 <= result.0 && result.0 <= len(buf)
 //@   ensures result.2 == nil ==> result.1 != nil
+//@   trace[C14,fast-close-only-on-successful-read] never service.(*natconn).onRead when result.2 != nil
+//@   trace[C03,returns-what-it-read] each net.PacketConn.ReadFrom satisfies sameslice($arg0, buf) && result.0 == $res0 && result.1 == $res1 && result.2 == $res2
 
 //@ func newNATmap
 //@   props C04 C18
 //@   ensures validNatmap(result) == (sm != nil && l != nil)
 
+// The table as a map view: Get reads it, set/del change exactly one key.
 //@ func (*natmap).Get
 //@   props C04 C18 C19
 //@   atomic
 //@   requires validNatmap(m)
 //@   ensures result != nil ==> validNatconn(result)
+//@   ensures[C04,get-is-lookup] result == ite(atlock(has(m.keyConn, key)), atlock(m.keyConn[key]), nil)
 
 //@ func (*natmap).set
 //@   props C04 C18 C19
 //@   atomic
 //@   requires validNatmap(m) && pc != nil && cryptoKey != nil && connMetrics != nil
 //@   ensures validNatconn(result) && result.cryptoKey == cryptoKey && result.PacketConn == pc && result.metrics == connMetrics
+//@   ensures[C04,set-binds-key] has(m.keyConn, key) && m.keyConn[key] == result
+//@   ensures[C04,set-leaves-other-keys] forall k string :: k != key ==> has(m.keyConn, k) == atlock(has(m.keyConn, k)) && (has(m.keyConn, k) ==> m.keyConn[k] == atlock(m.keyConn[k]))
+//@   ensures[C14,new-association-has-no-deadline-yet] result.readDeadline == 0 && result.defaultTimeout == m.timeout
 
 //@ func (*natmap).del
 //@   props C04 C18 C19
 //@   atomic
 //@   requires validNatmap(m)
+//@   ensures[C04,del-removes-key] !has(m.keyConn, key)
+//@   ensures[C04,del-returns-entry-socket] atlock(has(m.keyConn, key)) ==> result != nil && typeis(result, "*service.natconn") && as(result, "*service.natconn") == atlock(m.keyConn[key])
+//@   ensures[C04,del-of-absent-key] !atlock(has(m.keyConn, key)) ==> result == nil
+//@   ensures[C04,del-leaves-other-keys] forall k string :: k != key ==> has(m.keyConn, k) == atlock(has(m.keyConn, k)) && (has(m.keyConn, k) ==> m.keyConn[k] == atlock(m.keyConn[k]))
 
 //@ func (*natmap).Add
 //@   props C04 C16 C18
 //@   requires validNatmap(m) && clientAddr != nil && clientConn != nil && cryptoKey != nil && targetConn != nil
 //@   ensures validNatconn(result) && result.cryptoKey == cryptoKey
+//@   trace[C16,added-once] exactly 1 service.UDPMetrics.AddUDPNatEntry
+//@   trace[C16,added-with-key-and-client] each service.UDPMetrics.AddUDPNatEntry satisfies $arg0 == clientAddr && $arg1 == keyID
+//@   trace[C04,stored-under-client-address] each service.(*natmap).set satisfies $arg1 == pure("net.Addr.String", clientAddr) && $arg2 == targetConn && $arg3 == cryptoKey && $arg4 == evres("service.UDPMetrics.AddUDPNatEntry", 0)
+//@   trace[C04,stored-once] exactly 1 service.(*natmap).set
+//@   trace[C14,one-reclaimer] exactly 1 go:service.(*natmap).Add$1
 
 //@ func (*natmap).Add$1
 //@   props C04 C14 C16 C18
 //@   goroutine
 //@   requires validNatmap(m) && clientAddr != nil && clientConn != nil && validNatconn(entry) && connMetrics != nil
+//@   trace[C16,removed-once] exactly 1 service.UDPConnMetrics.RemoveNatEntry
+//@   trace[C14,removal-after-expiry] before service.timedCopy service.UDPConnMetrics.RemoveNatEntry
+//@   trace[C14,entry-deleted-once] exactly 1 service.(*natmap).del
+//@   trace[C14,deleted-after-report] before service.UDPConnMetrics.RemoveNatEntry service.(*natmap).del
+//@   trace[C04,deletes-own-key] each service.(*natmap).del satisfies $arg1 == pure("net.Addr.String", clientAddr)
+//@   trace[C14,socket-closed-after-delete] before service.(*natmap).del net.PacketConn.Close
+//@   trace[C14,closes-deleted-socket] each net.PacketConn.Close satisfies $recv == evres("service.(*natmap).del", 0)
+//@   trace[C14,socket-closed] exactly 1 net.PacketConn.Close when evres("service.(*natmap).del", 0) != nil
+//@   trace[C04,copies-for-its-own-association] each service.timedCopy satisfies $arg0 == clientAddr && $arg1 == clientConn && $arg2 == entry
 
 //@ func (*natmap).Close
 //@   props C14 C18 C19
 //@   requires validNatmap(m)
+//@   trace[C14,every-association-expired] loop 1 exactly 1 net.PacketConn.SetReadDeadline
+//@   trace[C14,expired-now] loop 1 each net.PacketConn.SetReadDeadline satisfies $arg0 == now
 
+//@ func UDPConnMetrics.AddPacketFromClient
+//@   abstract
+//@   params m status clientProxyBytes proxyTargetBytes
+//@ func UDPConnMetrics.AddPacketFromTarget
+//@   abstract
+//@   params m status targetProxyBytes proxyClientBytes
+//@ func UDPConnMetrics.RemoveNatEntry
+//@   abstract
+//@   params m
+
+// Receive loop: per datagram, one report iff an association exists at the end of the iteration,
+// carrying the wire size read, the bytes written to the target (0 if none) and the datagram's status.
 //@ func (*packetHandler).Handle
 //@   props C03 C14 C16 C18
 //@   requires validPacketHandler(h) && clientConn != nil
+//@   trace[C14,table-closed-at-exit] exactly 1 service.(*natmap).Close
+//@   trace[C16,at-most-one-report] loop 1 atmost 1 service.UDPConnMetrics.AddPacketFromClient
+//@   trace[C16,report-iff-association] loop 1 exactly 1 service.UDPConnMetrics.AddPacketFromClient when targetConn != nil
+//@   trace[C16,no-report-without-association] loop 1 never service.UDPConnMetrics.AddPacketFromClient when targetConn == nil
+//@   trace[C16,report-to-the-association] loop 1 each service.UDPConnMetrics.AddPacketFromClient satisfies $recv == targetConn.metrics \
+//@        && $arg1 == evres("net.PacketConn.ReadFrom", 0) && $arg2 == proxyTargetBytes
+//@   trace[C16,report-status] loop 1 each service.UDPConnMetrics.AddPacketFromClient satisfies (evres("service.(*packetHandler).Handle$1", 0) == nil ==> $arg0 == "OK") \
+//@        && (evres("service.(*packetHandler).Handle$1", 0) != nil ==> $arg0 == evres("service.(*packetHandler).Handle$1", 0).Status)
+//@   trace[C03,one-datagram-per-iteration] loop 1 exactly 1 service.(*packetHandler).Handle$1
 
 // The per-datagram closure of Handle (runs under a deferred recover).
 //@ func (*packetHandler).Handle$1
@@ -477,6 +552,15 @@ package service
 //@   requires err == nil ==> clientAddr != nil && typeis(clientAddr, "*net.UDPAddr") && as(clientAddr, "*net.UDPAddr") != nil
 //@   ensures targetConn != nil ==> validNatconn(targetConn)
 //@   trace[C05,every-datagram-validated] before service.(*packetHandler).validatePacket service.(*natconn).WriteTo
+//@   trace[C16,target-bytes-are-bytes-written] each service.(*natconn).WriteTo satisfies proxyTargetBytes == $res0 && $arg0 == targetConn
+//@   trace[C16,no-write-no-bytes] holds evcount("service.(*natconn).WriteTo") == 0 ==> proxyTargetBytes == 0
+//@   trace[C03,existing-association-uses-its-key] each shadowsocks.Unpack satisfies $arg2 == targetConn.cryptoKey && $arg1.$arr == cipherBuf.$arr && len($arg1) == clientProxyBytes
+//@   trace[C03,new-association-bound-to-found-key] each service.(*natmap).Add satisfies $arg3 == evres("service.findAccessKeyUDP", 2) && $arg5 == evres("service.findAccessKeyUDP", 1) \
+//@        && $arg1 == clientAddr && $arg2 == clientConn && $arg4 == evres("net.ListenPacket", 0) && targetConn == $res0
+//@   trace[C03,trial-decryption-into-scratch] each service.findAccessKeyUDP satisfies sameslice($arg1, textBuf) && $arg2.$arr == cipherBuf.$arr && len($arg2) == clientProxyBytes && $arg3 == h.ciphers
+//@   trace[C04,lookup-by-client-address] each service.(*natmap).Get satisfies $arg1 == pure("net.Addr.String", clientAddr)
+//@   trace[C04,one-lookup] atmost 1 service.(*natmap).Get
+//@   trace[C04,association-reused] each service.(*natmap).Get satisfies $res0 != nil ==> targetConn == $res0 && evcount("service.(*natmap).Add") == 0
 //@   trace[C05,one-validation-per-datagram] atmost 1 service.(*packetHandler).validatePacket
 //@   trace[C05,sent-to-validated-address] each service.(*natconn).WriteTo satisfies evres("service.(*packetHandler).validatePacket", 2) == nil && $arg2 != nil && as($arg2, "*net.UDPAddr") == evres("service.(*packetHandler).validatePacket", 1)
 //@   trace[C03,payload-from-validation] each service.(*natconn).WriteTo satisfies sameslice($arg1, evres("service.(*packetHandler).validatePacket", 0))
@@ -489,12 +573,26 @@ package service
 //@ func timedCopy
 //@   props C03 C14 C16 C18
 //@   requires clientAddr != nil && clientConn != nil && validNatconn(targetConn) && l != nil
+//@   trace[C16,one-report-per-reply] loop 1 exactly 1 service.UDPConnMetrics.AddPacketFromTarget
+//@   trace[C16,report-sizes] loop 1 each service.UDPConnMetrics.AddPacketFromTarget satisfies $recv == targetConn.metrics && $arg1 == bodyLen && $arg2 == proxyClientBytes
+//@   trace[C16,report-status] loop 1 each service.UDPConnMetrics.AddPacketFromTarget satisfies (evres("service.timedCopy$1", 0) == nil ==> $arg0 == "OK") \
+//@        && (evres("service.timedCopy$1", 0) != nil ==> $arg0 == evres("service.timedCopy$1", 0).Status)
+//@   trace[C14,loop-continues-unless-expired] loop 1 each service.timedCopy$1 satisfies !expired
 
 //@ func timedCopy$1
 //@   props C03 C04 C16 C18
 //@   requires clientAddr != nil && clientConn != nil && validNatconn(targetConn) && l != nil
 //@   requires len(pkt) == serverUDPBufferSize
 //@   requires saltSize == pure("shadowsocks.(*EncryptionKey).SaltSize", targetConn.cryptoKey) && bodyStart == saltSize + maxAddrLen
+//@   trace[C03,reads-into-body-area] each service.(*natconn).ReadFrom satisfies $arg0 == targetConn && $arg1.$arr == pkt.$arr && $arg1.$off == pkt.$off + bodyStart && len($arg1) == len(pkt) - bodyStart
+//@   trace[C16,body-size-is-bytes-read] each service.(*natconn).ReadFrom satisfies bodyLen == $res0
+//@   trace[C03,address-header-before-body] each copy satisfies $arg0.$arr == pkt.$arr && $arg0.$off + len($arg1) == pkt.$off + bodyStart && sameslice($arg1, evres("socks.ParseAddr", 0))
+//@   trace[C03,encrypted-under-association-key] each shadowsocks.Pack satisfies $arg2 == targetConn.cryptoKey
+//@   trace[C03,plaintext-is-address-then-body] each shadowsocks.Pack satisfies $arg1.$arr == pkt.$arr && $arg1.$off + len(evres("socks.ParseAddr", 0)) == pkt.$off + bodyStart \
+//@        && len($arg1) == len(evres("socks.ParseAddr", 0)) + bodyLen && $arg0.$arr == pkt.$arr && $arg0.$off + saltSize == $arg1.$off
+//@   trace[C04,reply-goes-to-association-client] each net.PacketConn.WriteTo satisfies $recv == clientConn && $arg1 == clientAddr && sameslice($arg0, evres("shadowsocks.Pack", 0))
+//@   trace[C16,client-bytes-are-bytes-written] each net.PacketConn.WriteTo satisfies proxyClientBytes == $res0
+//@   trace[C14,expiry-only-on-timeout] each service.(*natconn).ReadFrom satisfies expired ==> $res2 != nil
 
 // ---------------------------------------------------------------------------
 // Shared listeners (C11, C12, C13, C18, C19)
